@@ -114,8 +114,10 @@ func genMembers0(t *rapid.T, pool int) []int {
 }
 
 // nextMembers derives the membership of the following state: unchanged, one host
-// removed, one added, one swapped (same size, different set) or an arbitrary new subset.
-func nextMembers(t *rapid.T, pool int, cur []int) []int {
+// removed, one added, one swapped (same size, different set), an arbitrary new subset,
+// every host replaced (a new set disjoint from the old one: all hosts behind a DNS record
+// change) or exactly the previously healthy hosts replaced/removed.
+func nextMembers(t *rapid.T, pool int, cur, curHealthy []int) []int {
 	in := map[int]bool{}
 	for _, m := range cur {
 		in[m] = true
@@ -127,9 +129,12 @@ func nextMembers(t *rapid.T, pool int, cur []int) []int {
 		}
 	}
 	out := append([]int{}, cur...)
-	change := rapid.IntRange(0, 7).Draw(t, "memberChange")
+	change := rapid.IntRange(0, 10).Draw(t, "memberChange")
 	if len(absent) == 0 && change >= 2 && change <= 5 {
 		change = 1
+	}
+	if len(absent) == 0 && change == 8 {
+		change = 9
 	}
 	switch change {
 	case 0: // health-only change
@@ -146,6 +151,37 @@ func nextMembers(t *rapid.T, pool int, cur []int) []int {
 		if len(absent) > 0 {
 			i := rapid.IntRange(0, len(out)-1).Draw(t, "swapOut")
 			out[i] = rapid.SampledFrom(absent).Draw(t, "swapIn")
+		}
+	case 8: // every host replaced: the new membership is disjoint from the old one
+		k := len(cur)
+		if k > len(absent) {
+			k = len(absent)
+		}
+		if rapid.IntRange(0, 3).Draw(t, "replaceResize") == 0 {
+			k = rapid.IntRange(1, len(absent)).Draw(t, "replaceSize")
+		}
+		perm := rapid.Permutation(absent).Draw(t, "replacePerm")
+		out = append([]int{}, perm[:k]...)
+	case 9, 10: // the previously healthy hosts leave (each replaced by an absent host while there are any)
+		wasHealthy := map[int]bool{}
+		for _, h := range curHealthy {
+			wasHealthy[h] = true
+		}
+		var perm []int
+		if len(absent) > 0 {
+			perm = rapid.Permutation(absent).Draw(t, "healthyReplacePerm")
+		}
+		out = out[:0]
+		for _, m := range cur {
+			if !wasHealthy[m] {
+				out = append(out, m)
+			} else if len(perm) > 0 {
+				out = append(out, perm[0])
+				perm = perm[1:]
+			}
+		}
+		if len(out) == 0 { // everybody was healthy and nobody is available as a replacement: keep one host
+			out = append(out, rapid.SampledFrom(cur).Draw(t, "keepOne"))
 		}
 	default:
 		return genMembers0(t, pool)
@@ -168,11 +204,13 @@ func gen(t *rapid.T) Case {
 	}
 	nStates := rapid.SampledFrom([]int{1, 2, 2, 3, 3}).Draw(t, "states")
 	members := genMembers0(t, pool)
+	var healthy []int
 	for s := 0; s < nStates; s++ {
 		if s > 0 {
-			members = nextMembers(t, pool, members)
+			members = nextMembers(t, pool, members, healthy)
 		}
-		c.States = append(c.States, State{Members: members, Healthy: genHealth(t, members)})
+		healthy = genHealth(t, members)
+		c.States = append(c.States, State{Members: members, Healthy: healthy})
 	}
 	return c
 }
@@ -198,9 +236,12 @@ func (c *cluster) Resolve() stringset.Set {
 }
 
 // filter is a healthcheck.Filter which reports the configured healthy hosts among addrs.
+// While a health-check round is in flight (inside Run, which the ring calls from Refresh)
+// it invokes probe, if set: a request handler looking up digests at that very moment.
 type filter struct {
 	mu      sync.Mutex
 	healthy map[string]bool
+	probe   func()
 }
 
 func (f *filter) set(h []string) {
@@ -212,7 +253,19 @@ func (f *filter) set(h []string) {
 	f.mu.Unlock()
 }
 
+func (f *filter) setProbe(p func()) {
+	f.mu.Lock()
+	f.probe = p
+	f.mu.Unlock()
+}
+
 func (f *filter) Run(addrs stringset.Set) stringset.Set {
+	f.mu.Lock()
+	probe := f.probe
+	f.mu.Unlock()
+	if probe != nil {
+		probe() // no harness lock held: the probe calls back into the ring
+	}
 	f.mu.Lock()
 	defer f.mu.Unlock()
 	out := stringset.New()
@@ -370,10 +423,12 @@ func run(c Case) pbt.Verdict {
 	var keys []string
 	evals := 0
 	interesting := false
+	var prevSnap *snapshot
 
 	for si, st := range c.States {
 		members := addrsOf(st.Members)
 		healthyList := addrsOf(st.Healthy)
+		snap := newSnapshot(members, healthyList)
 		cl.set(members)
 		fl.set(healthyList)
 		if si == 0 {
@@ -381,8 +436,40 @@ func run(c Case) pbt.Verdict {
 				rings = append(rings, hashring.New(hashring.Config{MaxReplica: c.MaxReplica}, cl, fl, tally.NoopScope))
 			}
 		} else {
-			for _, r := range rings {
+			// While the health-check round of this Refresh is in flight, a sample of the shards is
+			// looked up on the ring being refreshed (see probeRefresh).
+			for ri, r := range rings {
+				var msg string
+				var probed int
+				ri, r := ri, r
+				fl.setProbe(func() { msg, probed = probeRefresh(c, si, ri, r, prevSnap, snap) })
 				r.Refresh()
+				fl.setProbe(nil)
+				if msg != "" {
+					return pbt.Verdict{Violation: msg, NonTrivial: true}
+				}
+				if probed == 0 {
+					classes["mid-refresh:filter-not-run"] = true // never seen; not an error in itself
+				}
+				evals += probed
+			}
+			if !sameSet(prevSnap.memberSet, snap.memberSet) {
+				classes["mid-refresh:membership-change"] = true
+				if prevSnap.anyHealthy {
+					gone := true
+					for h := range prevSnap.healthy {
+						if snap.memberSet[h] {
+							gone = false
+						}
+					}
+					if gone {
+						classes["mid-refresh:every-previously-healthy-host-left"] = true
+					} else {
+						classes["mid-refresh:some-previously-healthy-host-stays"] = true
+					}
+				}
+			} else {
+				classes["mid-refresh:health-only"] = true
 			}
 			prev := c.States[si-1]
 			switch {
@@ -503,6 +590,7 @@ func run(c Case) pbt.Verdict {
 			interesting = true
 			keys = append(keys, fmt.Sprintf("%s|%s|%d", strings.Join(members, ","), strings.Join(healthyList, ","), c.MaxReplica))
 		}
+		prevSnap = snap
 	}
 	var cls []string
 	for k := range classes {
@@ -510,6 +598,136 @@ func run(c Case) pbt.Verdict {
 	}
 	sort.Strings(cls)
 	return pbt.Verdict{NonTrivial: interesting, Classes: cls, Evals: evals, NonTrivialKeys: keys}
+}
+
+// snapshot is one whole membership/health state as the host list and the health filter define it.
+type snapshot struct {
+	members     []string
+	healthyList []string
+	memberSet   map[string]bool
+	healthy     map[string]bool
+	anyHealthy  bool
+}
+
+func newSnapshot(members, healthyList []string) *snapshot {
+	s := &snapshot{members: members, healthyList: healthyList, memberSet: map[string]bool{}, healthy: map[string]bool{}, anyHealthy: len(healthyList) > 0}
+	for _, m := range members {
+		s.memberSet[m] = true
+	}
+	for _, h := range healthyList {
+		s.healthy[h] = true
+	}
+	return s
+}
+
+func sameSet(a, b map[string]bool) bool {
+	if len(a) != len(b) {
+		return false
+	}
+	for k := range a {
+		if !b[k] {
+			return false
+		}
+	}
+	return true
+}
+
+// probeStride: every 32nd shard (2048 of them, the offset varies with state and ring) is looked up
+// while a Refresh is in progress.
+const probeStride = 32
+
+// probeRefresh runs inside the health filter, i.e. between the moment Refresh has resolved the new
+// host list and the moment it returns. The statement holds "for every digest" at every moment a
+// caller can observe the ring, so each lookup made here is judged
+//   - against the membership the ring itself reports at this moment (Members()): non-empty,
+//     members only, no duplicates, at most MaxReplica;
+//   - as a whole: the ring must be in a state the host list and the filter have actually defined,
+//     i.e. Members() is the previous or the new host list and the replica set is the one the
+//     statement prescribes for that membership together with ITS health set (a mixture such as
+//     new members ranked against the health verdicts of the old members is neither).
+//
+// It returns a violation message ("" = fine) and the number of lookups judged. Everything happens
+// on the goroutine that called Refresh, so there is no interleaving and no timing involved.
+func probeRefresh(c Case, si, ri int, r hashring.Ring, prev, next *snapshot) (msg string, n int) {
+	defer func() {
+		if p := recover(); p != nil {
+			msg = fmt.Sprintf("panic during a lookup made while Refresh is in progress (state %d ring %d): %v", si, ri, p)
+		}
+	}()
+	where := fmt.Sprintf("during the Refresh from state %d to state %d, ring %d", si-1, si, ri)
+	reported := map[string]bool{}
+	for a := range r.Members() {
+		reported[a] = true
+	}
+	var cands []*snapshot
+	if sameSet(reported, prev.memberSet) {
+		cands = append(cands, prev)
+	}
+	if sameSet(reported, next.memberSet) {
+		cands = append(cands, next)
+	}
+	if len(cands) == 0 {
+		return fmt.Sprintf("membership reported while a Refresh is in progress is neither the previous nor the new host list (%s: Members() %v, previous %v, new %v)",
+			where, keysOf(reported), prev.members, next.members), 1
+	}
+	for _, m := range keysOf(reported) {
+		if !r.Contains(m) {
+			return fmt.Sprintf("Contains disagrees with Members while a Refresh is in progress (%s: %s)", where, m), 1
+		}
+	}
+	scratch := make([]ranked, 0, len(prev.members)+len(next.members))
+	var kb [2]byte
+	for shard := (si*5 + ri*11) % probeStride; shard < nShards; shard += probeStride {
+		kb[0], kb[1] = byte(shard>>8), byte(shard)
+		shardHex := hex.EncodeToString(kb[:])
+		d, err := core.NewSHA256DigestFromHex(shardHex + c.Suffix)
+		if err != nil {
+			return "harness: digest: " + err.Error(), n
+		}
+		got := r.Locations(d)
+		n++
+		detail := func() string {
+			return fmt.Sprintf("%s shard %s: got %v; Members() %v; previous state members %v healthy %v; new state members %v healthy %v; MaxReplica %d",
+				where, shardHex, got, keysOf(reported), prev.members, prev.healthyList, next.members, next.healthyList, c.MaxReplica)
+		}
+		if len(got) == 0 {
+			return "replica set is empty while a Refresh is in progress (" + detail() + ")", n
+		}
+		seen := map[string]bool{}
+		for _, a := range got {
+			if !reported[a] {
+				return "replica set contains a host that is not a current member while a Refresh is in progress (" + detail() + ")", n
+			}
+			if seen[a] {
+				return "replica set contains a host twice while a Refresh is in progress (" + detail() + ")", n
+			}
+			seen[a] = true
+		}
+		if len(got) > c.MaxReplica {
+			return "replica set is larger than MaxReplica while a Refresh is in progress (" + detail() + ")", n
+		}
+		ok := false
+		for _, s := range cands {
+			exp, _, unambiguous := expected(kb[:], s.members, s.healthy, s.anyHealthy, c.MaxReplica, scratch)
+			if judge(got, exp, unambiguous, s.memberSet, s.healthy, s.anyHealthy, c.MaxReplica) == "" {
+				ok = true
+				break
+			}
+		}
+		if !ok {
+			return "replica set observed while a Refresh is in progress is prescribed neither by the previous nor by the new membership/health state (" + detail() + ")", n
+		}
+	}
+	return "", n
+}
+
+func keysOf(m map[string]bool) []string {
+	out := make([]string, 0, len(m))
+	for k := range m {
+		out = append(out, k)
+	}
+	sort.Strings(out)
+	return out
 }
 
 // judge compares one Locations result with the statement. It returns "" when the result is acceptable.
